@@ -14,7 +14,8 @@ entry_extend(
         "quimb/tensor/tn3d/core.py::TensorNetwork3DVector.gate",
         "quimb/tensor/tensor_core.py::Tensor.gate",
         "quimb/tensor/tnag/core.py::TensorNetworkGenVector.gate_with_op_lazy",
-        "quimb/tensor/tn1d/core.py::MatrixProductState.gate_with_submpo"],
+        "quimb/tensor/tn1d/core.py::MatrixProductState.gate_with_submpo",
+        "quimb/tensor/tnag/core.py::tensor_network_ag_gate_simple"],
     LEMMAS=False,
     PROVIDERS=[],
     TRUSTED=[
@@ -36,6 +37,12 @@ entry_extend(
         "c06_ext sub-operator route leaves: tensor_network_apply_op_vec (which_A names the side of A joined to x: C09 contract "
         "ApplyOpVec), psi.partition(tags, which='any', inplace=True) -> (rest, region), tensor_network_1d_compress, "
         "canonicalize_, submpo.gen_sites_present(); [psi.site_tag(s) for s in range(a, b)] is read as the site tags a..b-1",
+        "c06_ext gate_simple leaves: tensor_network_ag_gate (own contract AGGate; here recorded) reports the new singular "
+        "values of a two-site split as the single entry {(kind, bond label): s} of the info dict it is handed; "
+        "tensor_network_ag_gate_simple_long_range (recorded, not entered); tn._get_tids_from_tags(tags, 'any'), "
+        "tn._select_tids(tids) (a view of the two tensors), ta.bonds(tb), tn_where.gauge_simple_temp(...) is a context "
+        "manager that inserts the gauges on entry and removes them on exit of the with-block (python `with` semantics; the "
+        "bracket is checked lexically on the real ast: the gate call lies inside that block); s / do('linalg.norm', s)",
         "c06_ext FRESHNESS: every rand_uuid() is a new label (distinct object) different from every existing label",
         "c06_ext: the decorator convert_cur_orthog of gate_with_auto_swap (cur_orthog= keyword -> info dict) is not entered; "
         "the body is verified with info a dict",
@@ -44,7 +51,7 @@ entry_extend(
         "c06_ext structure bounds: gate_TN_1D number of sites in {int site, 1, 2, symbolic >= 3}; lazy_split ng == 2 (the only "
         "value its single caller passes: GateInds mode table) with symbolic ranks; gate_inds_with_tn 1..3 targets (each "
         "present or absent, symbolic) + single-string spelling + unequal lengths; gate_with_auto_swap symbolic sites i != j "
-        ">= 0 in any order; gate_nonlocal 2 or 3 sites; gate_with_submpo 2 or 3 symbolic sites in any order, where given or taken from the operator; tensor_network_ag_gate single site / 2 / 3 sites; maybe_factor_gate "
+        ">= 0 in any order; gate_nonlocal 2 or 3 sites; tensor_network_ag_gate_simple: single site / 1-tuple / 2-tuple / 2-list x {one tensor, two bonded, two disconnected, symbolic >= 3 tensors}, info None or an empty dict (a non-empty info dict makes the single-entry unpacking of the real code raise: outside the pre-condition); gate_with_submpo 2 or 3 symbolic sites in any order, where given or taken from the operator; tensor_network_ag_gate single site / 2 / 3 sites; maybe_factor_gate "
         "ng in 1..3 and, on the dimension-guessing route only, d in 2..5 (float root evaluated natively); Tensor.gate ndim 1..4 "
         "x every axis; 2D / 3D wrappers: single coordinate, 2 (tuple or list) or 3 coordinates",
         "c06_ext: option VALUES (G, tags, info, max_bond, cutoff, method, dagger / transpose in the ag wrapper) are opaque "
@@ -64,6 +71,7 @@ entry_extend(
         "TensorNetwork2DVector.gate": ["gate / gate_inds on a state-like"],
         "TensorNetwork3DVector.gate": ["gate / gate_inds on a state-like"],
         "Tensor.gate": ["Tensor.gate: x <- G x"],
+        "tensor_network_ag_gate_simple": ["gate_simple", "gauged dense(after)"],
         "TensorNetworkGenVector.gate_with_op_lazy": ["with_op_lazy", "MatrixProductState."],
         "MatrixProductState.gate_with_submpo": ["MatrixProductState."]},
     EXPLANATION="E1 extension (recording calculus over the real ast; callees are recorded leaves): gate_TN_1D reaches exactly "
@@ -84,4 +92,7 @@ entry_extend(
                 "provenance through tensordot / transpose, every ndim <= 4 and axis); the sub-operator route (gate_with_op_lazy, "
                 "gate_with_submpo): lower side of the operator meets the state (upper when transposed), canonical region "
                 "[min, max] of the sites in any order, exactly that region compressed with the caller's method / options, "
-                "cur_orthog where the sweep ends.")
+                "cur_orthog where the sweep ends; tensor_network_ag_gate_simple: on the one-tensor, bonded two-tensor (gauged) and "
+                "long-range routes the caller's G, sites in order, dagger AND transpose, max_bond / cutoff / gate options reach "
+                "the gate leaf, smudge / power the gauge insertion that brackets it, the reported bond gauge is stored "
+                "(normalised iff renorm) and nothing else in gauges changes; > 2 tensors raise before anything is applied.")
